@@ -641,7 +641,7 @@ fn large(c: &mut Case) {
 fn main() {
     runner::main(Spec {
         property: "C07",
-        rule: "each case draws one data set from gen::design (1<=p<=8, p<n<=80 incl. n=p+1; centred/normalised part with log-graded singular values, cond<=1e6 (f32: <=30, raw ridge f32: <=10) re-measured after standardisation by an independent Jacobi SVD; column scales 1e-2..1e3 per column or common; non-zero column means 0.3/1/3 column scales; family ridge_offset: means 30..1e4 (f32: 30..300) column scales with a common scale <= 1e3/that factor, generated cond <= 3 and kappa_2 of the raw X measured <= 1e6), a target (linear+noise, exact linear, pure noise, noise+offset, constant, zero; rescaled 1e-3..1e3), alpha log-uniform in [1e-3,1e2], f64 (75 %) or f32, and fits BOTH solvers of the family's model on it (ols: QR+SVD; ridge_norm / ridge_raw / ridge_offset: Cholesky+SVD, normalize on / off / on); non-trivial = measured preconditions hold and at least one fit returned a model whose optimality conditions were evaluated; distinct = distinct hash of (model, width, alpha, X, y)",
+        rule: "each case draws one data set from gen::design (1<=p<=8, p<n<=80 incl. n=p+1; centred/normalised part with log-graded singular values, cond<=1e6 (f32: <=30, raw ridge f32: <=10) re-measured after standardisation by an independent Jacobi SVD; column scales 1e-2..1e3 per column or common; non-zero column means 0.3/1/3 column scales; family ridge_offset: means 30..1e4 (f32: 30..300) column scales with a common scale <= 1e3/that factor, generated cond <= 3 and kappa_2 of the raw X measured <= 1e6), a target (linear+noise, exact linear, pure noise, noise+offset, constant, zero; rescaled 1e-3..1e3), alpha log-uniform in [1e-3,1e2], f64 (75 %) or f32, and fits BOTH solvers of the family's model on it (ols: QR+SVD; ridge_norm / ridge_raw / ridge_offset: Cholesky+SVD, normalize on / off / on); non-trivial = measured preconditions hold and at least one fit returned a model whose optimality conditions were evaluated; distinct = distinct hash of (model, width, alpha, X, y); large: 9..40 features and up to 300 rows more than features; parameter objects are passed to fit as clones in every second case",
         assumptions: vec![
             "'condition number <= 1e6' is read as the 2-norm condition number of the centred, standardised design (measured); the condition number of the system actually solved ([X 1] for OLS, ZᵀZ+αI for ridge) is measured separately, enters only the solver-agreement tolerances, and cases with cond·eps > 1e-3 are skipped (affects f32 and a few f64 raw-ridge cases)",
             "f32: cond of the generated part <= 30 (raw ridge <= 10) and a common column scale for OLS / raw ridge, so that cond·eps << 1 for the system solved in single precision",
@@ -656,7 +656,7 @@ fn main() {
             Family::new("ridge_norm", 3500, 50000, ridge_norm),
             Family::new("ridge_raw", 2500, 40000, ridge_raw),
             Family::new("ridge_offset", 1000, 15000, ridge_offset),
-            Family::new("large", 200, 4000, large),
+            Family::new("large", 80, 300, large),
         ],
         min_nontrivial: 1500,
         case_timeout_s: 120,
